@@ -19,9 +19,11 @@ import (
 	"encoding/json"
 	"errors"
 	"fmt"
+	"io"
 	"math/rand"
 	"net"
 	"net/http"
+	"os"
 	"runtime"
 	"strings"
 	"sync"
@@ -117,7 +119,7 @@ type c18In struct {
 	Slow     bool     `json:"slow,omitempty"`     // tcpfail: nobody answers the stream close, Close sits out ConnectTimeout (1 s)
 	Script   [][2]int `json:"script,omitempty"`   // conn: (n, err?) returned by the successive conn.Write calls, then (len, nil); after an error every write fails
 	Recv     bool     `json:"recv,omitempty"`     // conn: a real Client receive loop blocked in Read on the same connection, sharing quit
-	Variant  string   `json:"variant,omitempty"`  // re: plain (drop, Resume) | staleclose (stream error, keep-alive fails while the receiver sits in Close, Resume) | hookfail (first Resume's PostResumeHook fails) | serrmgr (stream error; the StreamError handler disconnects, backs off and resumes before it returns, as a StreamManager does)
+	Variant  string   `json:"variant,omitempty"`  // re: plain (drop, Resume) | staleclose (stream error, keep-alive fails while the receiver sits in Close, Resume) | hookfail (first Resume's PostResumeHook fails) | closewait (a keep-alive fails towards a peer gone silent; its Close is still waiting for the peer's closing tag when the connection is reset and the client resumed) | serrmgr (stream error; the StreamError handler disconnects, backs off and resumes before it returns, as a StreamManager does)
 	TLS      string   `json:"tls,omitempty"`      // e2e: "" plain TCP | verify (STARTTLS, RootCAs) | skip (STARTTLS, InsecureSkipVerify)
 	End      string   `json:"end,omitempty"`      // e2e: drop (server resets) | srvclose (server sends </stream:stream>) | disconnect (Client.Disconnect)
 	Suffix   []int    `json:"suffix,omitempty"`   // model only: what the schedule goes on offering (0 tick, 1 quit)
@@ -136,7 +138,7 @@ func (c18) Workers() int  { return 8 }
 // driver then finds the case through the per-worker journal.
 func (c18) Journal() bool { return true }
 func (c18) Rule() string {
-	return "keepalive goroutine (VerifKeepalive) on a recording stub transport, intervals 1-10 ms: run for T then close quit; quit closed at a random phase of the ticker (0-5 intervals + 0-99 %, incl. exactly on a tick); quit closed before the goroutine starts; Ping failing at the k-th call for every k in 1..10 x interval; interval 0 / negative. Real XMPPTransport over loopback TCP (scripted server records every byte after the stream header): healthy run, server resets / closes the connection after reading n bytes (Close waiting out its timeout or answered at once). Real XMPPTransport over a scripted net.Conn: every conn.Write / conn.Close call, scripted write results (short counts, errors; after an error the connection stays dead for writing while reads block), with and without a real Client receive loop blocked on the same connection and sharing quit: the connection must get closed after the failed keep-alive and the loss be reported (ErrorHandler, Disconnected). End to end: real Client.Connect (KeepaliveInterval 2-5 ms) against the scripted XMPP server (SASL PLAIN + bind), session up for T, then ended by a server reset / the server's </stream:stream> / Client.Disconnect at a random phase; Ping and Close calls logged by a wrapper around the client's transport, keep-alive bytes counted at the server; after the Disconnected event + grace nothing may be pinged for 10 more intervals; sessions ended by a server <stream:error/> with application callbacks that BLOCK (the StateStreamError handler for 6.5 intervals, the error callback for 2; they run synchronously in the receive loop): from the moment the stream error is received (+ half an interval) no Ping call and no keep-alive byte at the server, although the handlers are still running; the same over real STARTTLS with the certificate verified (RootCAs) and with InsecureSkipVerify: the keep-alive bytes must show up in the DECRYPTED stream at the server, the raw socket must carry nothing but TLS records, the session must not be torn down while it is up. WebSocket transport end to end (loopback nhooyr.io/websocket server, RFC 7395 open exchange, keepalive + receive loop started as Client.Connect does): pings answered for T, then the TCP connection underneath is reset / closed: the failed keep-alive (a WebSocket ping control frame, not whitespace: only the closed-so-that-the-loss-is-reported clause is checked there) the loss must be reported exactly once (ErrorHandler + Disconnected) by whichever path notices first - the transport's reader or the failing keep-alive, which then calls Close - and the keep-alive loop be over; and a peer that goes SILENT without closing (a TCP relay stops forwarding; reads just block): only the keep-alive can notice, its ping times out after the library's 5 s, Close follows, the loss is reported once. Sessions on ONE Client object (the Transport is re-used by Resume; every Ping/Close logged with its goroutine, keep-alive bytes counted per server connection): drop then Resume; a stream error during which the keep-alive fails while the receiver sits in Close (ConnectTimeout 1 s), then Resume: the Close entered for session 1 must not close session 2's connection; a stream error whose StateStreamError handler does what a StreamManager does (Disconnect, back-off, Resume, returning only when the new session is up): no keep-alive of the dead session on ANY connection of the client from the stream error until the new session is up; the loop HELD at the entry of transport.Ping (i.e. past its poll of quit: where the scheduler may stop it) while the session ends and the client is resumed: that one ping may go out, on the new connection, and is the only one; held again after a refused re-dial so that the ping fails for want of a connection, and at the entry of Close while a second re-dial succeeds: the loop must not answer that failure with Close (it would close the new session); a PostConnectHook that fails (Connect returns its error: the session must not be left up without keep-alive and receiver); a PostResumeHook that fails once: exactly one keep-alive loop per established session, none left by the failed attempt, its session closed. A negative KeepaliveInterval through NewClient/Connect (a crash of the library's goroutine is found through the crash journal). WebSocket: Disconnect while a keep-alive ping awaits its pong (the failed ping is answered with a second Close, which must not panic). The liveness bound applies to windows of at least 6 intervals and 30 ms. The model receives the observed schedule (successful pings before the terminating event, how the run ended) plus a random continuation and must reproduce the ordered log ping-ok/ping-failed/Close/loop-over, the number of keep-alives the server reads, the calls on the connection and the reporting of the loss. A keep-alive is compared as a CLASS: any non-empty run of XML white space (space, tab, CR, LF) written by one Ping, on the connection and in the stream the server reads; what happens for an interval <= 0 is outside the property and not compared beyond nothing-sent-nothing-closed; distinct = scenario parameters; non-trivial = at least 2 pings before the terminating event"
+	return "keepalive goroutine (VerifKeepalive) on a recording stub transport, intervals 1-10 ms: run for T then close quit; quit closed at a random phase of the ticker (0-5 intervals + 0-99 %, incl. exactly on a tick); quit closed before the goroutine starts; Ping failing at the k-th call for every k in 1..10 x interval; interval 0 / negative. Real XMPPTransport over loopback TCP (scripted server records every byte after the stream header): healthy run, server resets / closes the connection after reading n bytes (Close waiting out its timeout or answered at once). Real XMPPTransport over a scripted net.Conn: every conn.Write / conn.Close call, scripted write results (short and over-long counts; errors of every KIND: plain, a net.Error with Timeout() true as an expired write deadline or ETIMEDOUT gives, a temporary net.Error, io.EOF, os.ErrDeadlineExceeded, io.ErrShortWrite; after an error the connection stays dead for writing IN THE SAME WAY while reads block: whatever the kind, the keep-alive could not be written, so Close must follow and the loss be reported), with and without a real Client receive loop blocked on the same connection and sharing quit: the connection must get closed after the failed keep-alive and the loss be reported (ErrorHandler, Disconnected). End to end: real Client.Connect (KeepaliveInterval 2-5 ms) against the scripted XMPP server (SASL PLAIN + bind), session up for T, then ended by a server reset / the server's </stream:stream> / Client.Disconnect at a random phase; Ping and Close calls logged by a wrapper around the client's transport, keep-alive bytes counted at the server; after the Disconnected event + grace nothing may be pinged for 10 more intervals; sessions ended by a server <stream:error/> with application callbacks that BLOCK (the StateStreamError handler for 6.5 intervals, the error callback for 2; they run synchronously in the receive loop): from the moment the stream error is received (+ half an interval) no Ping call and no keep-alive byte at the server, although the handlers are still running; the same over real STARTTLS with the certificate verified (RootCAs) and with InsecureSkipVerify: the keep-alive bytes must show up in the DECRYPTED stream at the server, the raw socket must carry nothing but TLS records, the session must not be torn down while it is up. WebSocket transport end to end (loopback nhooyr.io/websocket server, RFC 7395 open exchange, keepalive + receive loop started as Client.Connect does): pings answered for T, then the TCP connection underneath is reset / closed: the failed keep-alive (a WebSocket ping control frame, not whitespace: only the closed-so-that-the-loss-is-reported clause is checked there) the loss must be reported exactly once (ErrorHandler + Disconnected) by whichever path notices first - the transport's reader or the failing keep-alive, which then calls Close - and the keep-alive loop be over; and a peer that goes SILENT without closing (a TCP relay stops forwarding; reads just block): only the keep-alive can notice, its ping times out after the library's 5 s, Close follows, the loss is reported once. Sessions on ONE Client object (the Transport is re-used by Resume; every Ping/Close logged with its goroutine, keep-alive bytes counted per server connection): drop then Resume; a stream error during which the keep-alive fails while the receiver sits in Close (ConnectTimeout 1 s), then Resume: the Close entered for session 1 must not close session 2's connection; a stream error whose StateStreamError handler does what a StreamManager does (Disconnect, back-off, Resume, returning only when the new session is up): no keep-alive of the dead session on ANY connection of the client from the stream error until the new session is up; the loop HELD at the entry of transport.Ping (i.e. past its poll of quit: where the scheduler may stop it) while the session ends and the client is resumed: that one ping may go out, on the new connection, and is the only one; held again after a refused re-dial so that the ping fails for want of a connection, and at the entry of Close while a second re-dial succeeds: the loop must not answer that failure with Close (it would close the new session); a keep-alive that fails towards a peer gone silent (TCP relay frozen, failure injected at the Transport boundary) whose Close is still waiting for the peer's closing tag (ConnectTimeout 1 s) when the connection is reset and the client resumed: when that Close finally acts, the second session's transport must be untouched - its keep-alives go on being written on ITS connection, nothing closes or forgets it; a PostConnectHook that fails (Connect returns its error: the session must not be left up without keep-alive and receiver); a PostResumeHook that fails once: exactly one keep-alive loop per established session, none left by the failed attempt, its session closed. A negative KeepaliveInterval through NewClient/Connect (a crash of the library's goroutine is found through the crash journal). WebSocket: Disconnect while a keep-alive ping awaits its pong (the failed ping is answered with a second Close, which must not panic). The liveness bound applies to windows of at least 6 intervals and 30 ms. The model receives the observed schedule (successful pings before the terminating event, how the run ended) plus a random continuation and must reproduce the ordered log ping-ok/ping-failed/Close/loop-over, the number of keep-alives the server reads, the calls on the connection and the reporting of the loss. A keep-alive is compared as a CLASS: any non-empty run of XML white space (space, tab, CR, LF) written by one Ping, on the connection and in the stream the server reads; what happens for an interval <= 0 is outside the property and not compared beyond nothing-sent-nothing-closed; distinct = scenario parameters; non-trivial = at least 2 pings before the terminating event"
 }
 
 func c18Suffix(r *rand.Rand) []int {
@@ -228,7 +230,9 @@ func (c18) Gen(r *rand.Rand, tier string) []interface{} {
 		add(&c18In{Kind: "tcpfail", IvUs: 2000, CutAfter: 1 + i%3, Fin: i%2 == 1, Slow: true})
 	}
 	// real XMPPTransport over a scripted net.Conn: every conn.Write call of Ping and its result
-	bad := [][2]int{{0, 0}, {2, 0}, {0, 1}, {1, 1}, {-1, 1}, {5, 0}}
+	// (count relative to a one-byte payload, error kind: 0 none, 1 plain, 2 timeout net.Error, 3 temporary
+	// net.Error, 4 io.EOF, 5 os.ErrDeadlineExceeded, 6 io.ErrShortWrite)
+	bad := [][2]int{{0, 0}, {2, 0}, {0, 1}, {1, 1}, {-1, 1}, {5, 0}, {0, 2}, {0, 3}, {0, 4}, {0, 5}, {0, 6}, {1, 2}}
 	nconn := 1
 	if thorough {
 		nconn = 6
@@ -302,6 +306,7 @@ func (c18) Gen(r *rand.Rand, tier string) []interface{} {
 	}
 	for i := 0; i < (nre+5)/6; i++ {
 		add(&c18In{Kind: "re", Variant: "staleclose", IvUs: 100000, Ticks: 2})
+		add(&c18In{Kind: "re", Variant: "closewait", IvUs: 1000 * (5 + r.Intn(6)), Ticks: 4 + r.Intn(4)})
 		add(&c18In{Kind: "re", Variant: "serrmgr", IvUs: 1000 * (5 + r.Intn(6)), Ticks: 5 + r.Intn(5)})
 	}
 	// a negative KeepaliveInterval through NewClient / Connect
@@ -388,14 +393,15 @@ func (t *kaStub) Close() error {
 // kaReal: the real transport, with the same log around its Ping and Close.
 type kaReal struct {
 	xmpp.Transport
-	rec  *kaRec
-	slow bool
-	attr bool        // e2e: tell the keep-alive loop's Close calls from everybody else's
-	gate *kaGate     // re: holds the loop at the entry of Ping / Close
-	fc   *kaFakeConn // conn kind: the scripted connection underneath
-	mu   sync.Mutex
-	pw   [][]string // conn kind: payloads of the conn.Write calls made by each Ping
-	pg   [][2]int   // conn kind: [first, end) indices of those calls among all conn.Write calls
+	rec      *kaRec
+	slow     bool
+	attr     bool        // e2e: tell the keep-alive loop's Close calls from everybody else's
+	gate     *kaGate     // re: holds the loop at the entry of Ping / Close
+	failPing int32       // re: set to 1 to make the next Ping fail
+	fc       *kaFakeConn // conn kind: the scripted connection underneath
+	mu       sync.Mutex
+	pw       [][]string // conn kind: payloads of the conn.Write calls made by each Ping
+	pg       [][2]int   // conn kind: [first, end) indices of those calls among all conn.Write calls
 }
 
 // kaGate holds the keep-alive goroutine at the ENTRY of transport.Ping / transport.Close: for the loop this
@@ -446,6 +452,11 @@ func (g *kaGate) pass(ping bool) {
 }
 
 func (t *kaReal) Ping() error {
+	if atomic.CompareAndSwapInt32(&t.failPing, 1, 0) {
+		// fault injection at the Transport boundary: this keep-alive could not be written
+		t.rec.add(kaPingFail)
+		return errors.New("write tcp: no route to host (injected)")
+	}
 	t.gate.pass(true)
 	before := 0
 	if t.fc != nil {
@@ -841,7 +852,8 @@ type kaFakeConn struct {
 	script    [][2]int
 	writes    []string
 	log       []kaConnEv // every Write and Close, in order
-	dead      bool       // a write has failed: every later write fails as well
+	dead      bool       // a write has failed: every later write fails as well, in the same way
+	deadErr   error
 	closes    int
 	blockRead bool // reads block until the connection is closed locally
 	closedCh  chan struct{}
@@ -855,6 +867,33 @@ type kaAddr struct{}
 func (kaAddr) Network() string { return "fake" }
 func (kaAddr) String() string  { return "fake" }
 
+// kaNetErr: a net.Error of a chosen kind.
+type kaNetErr struct {
+	msg              string
+	timeout, tempora bool
+}
+
+func (e kaNetErr) Error() string   { return e.msg }
+func (e kaNetErr) Timeout() bool   { return e.timeout }
+func (e kaNetErr) Temporary() bool { return e.tempora }
+
+// kaWriteErr: the error KIND a scripted write fails with (second number of a script entry).
+func kaWriteErr(kind int) error {
+	switch kind {
+	case 2: // an expired write deadline / ETIMEDOUT towards a peer that vanished: a net.Error with Timeout() true
+		return &net.OpError{Op: "write", Net: "tcp", Err: kaNetErr{"i/o timeout", true, true}}
+	case 3: // a net.Error that calls itself temporary
+		return &net.OpError{Op: "write", Net: "tcp", Err: kaNetErr{"no buffer space available", false, true}}
+	case 4:
+		return io.EOF
+	case 5:
+		return os.ErrDeadlineExceeded
+	case 6:
+		return io.ErrShortWrite
+	}
+	return errors.New("fake conn: write failed")
+}
+
 func (c *kaFakeConn) Write(p []byte) (int, error) {
 	c.mu.Lock()
 	defer c.mu.Unlock()
@@ -862,13 +901,13 @@ func (c *kaFakeConn) Write(p []byte) (int, error) {
 	c.writes = append(c.writes, string(p))
 	c.log = append(c.log, kaConnEv{data: string(p)})
 	if c.dead {
-		return 0, errors.New("fake conn: broken pipe")
+		return 0, c.deadErr // what ended the connection for writing goes on being the answer
 	}
 	if k < len(c.script) {
 		var err error
 		if c.script[k][1] != 0 {
-			err = errors.New("fake conn: write failed")
-			c.dead = true
+			err = kaWriteErr(c.script[k][1])
+			c.dead, c.deadErr = true, err
 		}
 		// scripted counts are written for a one-byte payload: 1 = everything, 0 = one byte short, ...
 		return len(p) + c.script[k][0] - 1, err
@@ -1362,7 +1401,20 @@ func (r *kaRelay) pipe(src, dst net.Conn) {
 		}
 	}
 }
-func (r *kaRelay) freeze() { atomic.StoreInt32(&r.frozen, 1) }
+func (r *kaRelay) freeze()   { atomic.StoreInt32(&r.frozen, 1) }
+func (r *kaRelay) unfreeze() { atomic.StoreInt32(&r.frozen, 0) }
+
+// cutClients resets every connection accepted so far on the client's side.
+func (r *kaRelay) cutClients() {
+	r.mu.Lock()
+	defer r.mu.Unlock()
+	for i := 0; i < len(r.conns); i += 2 {
+		if tc, ok := r.conns[i].(*net.TCPConn); ok {
+			tc.SetLinger(0)
+		}
+		r.conns[i].Close()
+	}
+}
 func (r *kaRelay) close() {
 	close(r.stop)
 	r.ln.Close()
